@@ -44,9 +44,8 @@ def accessor_siblings(prog, res):
             if not mine:
                 continue
             n += 1
-            ok_edges = cond_edges(f, lambda c: c.get("k") == "bin" and c["op"] == ">=" and
-                                  strip_casts(c["lhs"]).get("k") == "ref" and strip_casts(c["lhs"]).get("pi") == pi and
-                                  "tableLen" in {y["f"] for y in walk(c["rhs"]) if y.get("k") == "mem"}, "false")
+            ok_edges = guards.rel_edges(f, lambda a: a.get("k") == "ref" and a.get("pi") == pi and a.get("rk") == "p", ">=",
+                                        lambda b_: "tableLen" in {y["f"] for y in walk(b_) if y.get("k") == "mem"}, truth=False)
             ok = bool(ok_edges) and f.must_pass(via_edges=ok_edges, targets=mine)
             res.check(ok, R, f.name, f.loc, "entries[%s(+1)] only after `%s >= tableLen` was refused" % (prm["n"], prm["n"]),
                       "%s subscripts the seek table with its index parameter without first refusing index >= tableLen "
